@@ -55,7 +55,9 @@ func genC24(r *sim.Rand, tier string) *sim.Case {
 			if invalidRun && r.Chance(1, 4) {
 				pos = invalidPos[r.Intn(len(invalidPos))]
 			}
-			c.Ops = append(c.Ops, sim.Op{K: "split", A: int64(r.Intn(8)), B: int64(pos), C: int64(r.Intn(100)), D: int64(r.Intn(2))})
+			// D bit 0: child start key left empty; D>>1 == 3: the child has no replica on this
+			// store, so its peer cannot be built and the split must be undone completely
+			c.Ops = append(c.Ops, sim.Op{K: "split", A: int64(r.Intn(8)), B: int64(pos), C: int64(r.Intn(100)), D: int64(r.Intn(2) + 2*r.Pick(0, 0, 0, 0, 3))})
 		case x < 78:
 			rel := int64(r.Intn(2)) // 0 = right neighbour is the source, 1 = left neighbour is the source
 			if nonadjRun && r.Chance(1, 4) {
@@ -560,6 +562,11 @@ func execC24(t *testing.T, c *sim.Case) *sim.Result {
 					child.StartKey = nil // let the store take the start from the split key
 				}
 				info.sig = map[string]string{"key": posNames[pos]}
+				if (op.D>>1)%4 == 3 {
+					child.Peers = []manifest.PeerMeta{{StoreID: theStoreID + 1, PeerID: peerIDBase + nextID}}
+					info.sig["child"] = "no_local_replica"
+					res.Faults["split_child_cannot_start"]++
+				}
 				var err error
 				var fin bool
 				pv, fin = w.Call(func() { err = w.Store.ProposeSplit(parent.ID, child, key) })
